@@ -30,9 +30,14 @@ structure Status where
   compare : Action := {}
   deriving DecidableEq, Repr, Inhabited
 
-/-- `status.SetApprove`. -/
+/-- `status.SetApprove`.  A failed approve first saves a successful approve that is newer than the
+last compare into the compare slot (as UPTODATE for that policy and time), so that it is not lost
+when the approve slot is overwritten. -/
 def setApprove (v : Status) (policy : Nat) (failed : Bool) (now : Nat) : Status :=
-  { v with approve := ⟨if failed then .failed else .ok, policy, now⟩ }
+  let keep := failed && decide (v.compare.time < v.approve.time) &&
+    (v.approve.result == .ok || v.approve.result == .warnings)
+  let cmp := if keep then ⟨.uptodate, v.approve.policy, v.approve.time⟩ else v.compare
+  { approve := ⟨if failed then .failed else .ok, policy, now⟩, compare := cmp }
 
 /-- `status.SetCompare`: DIFF is sticky unless the device was approved since. -/
 def setCompare (v : Status) (policy : Nat) (changed : Bool) (now : Nat) : Status :=
